@@ -1,8 +1,10 @@
 """C06 — flush, compaction, caching and reopen never change query answers (E2 engine)."""
 from . import e2gen as G
 from . import ck as CK
+from . import levels as LV
 
-MODEL_TARGETS = ["theories/Spec/Machine.vo"]
+MODEL_TARGETS = ["theories/Spec/Machine.vo", "theories/Lsm/Levels.vo"]
+PARAM_SECTIONS = ["levels"]
 TRUSTED = ["the specification machine (Spec/Machine.v) treats rotate/flush/compaction/clean reopen as identities: "
            "every answer of the implementation is compared with it, so any dependence on physical placement shows as a difference"]
 ASSUMPTIONS = ["background flush/compaction are disabled by options (huge memtable, high L0 trigger); placement is driven only by the script"]
@@ -136,6 +138,8 @@ def explore(ctx):
     r = CK.merge(r, CK.explore(ctx, "C06"))
     r["coverage"]["rule"] += ("; plus compaction-iterator cases: all version lists of one key up to length 3 (4 in thorough) x snapshot "
                               "subsets x bottom x versioning, and random multi-key multi-run cases, each checked against compact_key_view and against Lsm/CompactKey.v")
+    # level structure (Lsm/Levels.v): invariant, point reads and steps of the extracted model on dumps of the running store
+    r = LV.merge(r, LV.conformance(ctx, "C06", PROFILES, n_quick=240, n_thorough=700))
     return r
 
 
